@@ -99,6 +99,55 @@ extern "C" int getloadavg(double loadavg[], int nelem) {
   return nelem;
 }
 
+// ---- seam S8: the order of Edge / Node addresses -------------------------------------------------------------------
+namespace nx {
+bool g_alloc_descending = false;
+uint64_t g_desc_allocs = 0;
+namespace {
+// One lazily committed reservation per kind, handed out from the top downwards and never reused: objects of the harness
+// that happen to have the same size land here too and may outlive the invocation.  (Workers are recycled by resident size.)
+struct DescArena {
+  static const size_t kBytes = size_t(8) << 30;
+  char* buf = nullptr;
+  size_t top = 0;
+  void* Take(size_t n) {
+    if (!buf) {
+      void* m = mmap(nullptr, kBytes, PROT_READ | PROT_WRITE, MAP_PRIVATE | MAP_ANONYMOUS | MAP_NORESERVE, -1, 0);
+      if (m == MAP_FAILED) return nullptr;
+      buf = (char*)m;
+      top = kBytes;
+    }
+    n = (n + 15) & ~size_t(15);
+    if (top < n) return nullptr;
+    top -= n;
+    return buf + top;
+  }
+  bool Owns(const void* p) const { return buf && p >= (const void*)buf && p < (const void*)(buf + kBytes); }
+};
+DescArena g_edge_arena, g_node_arena;
+}  // namespace
+}  // namespace nx
+
+void* operator new(size_t n) {
+  if (nx::g_alloc_descending && nx::g_in_invocation) {
+    void* p = nullptr;
+    if (n == sizeof(Edge)) p = nx::g_edge_arena.Take(n);
+    else if (n == sizeof(Node)) p = nx::g_node_arena.Take(n);
+    if (p) { nx::g_desc_allocs++; return p; }
+  }
+  void* p = malloc(n ? n : 1);
+  if (!p) throw std::bad_alloc();
+  return p;
+}
+void operator delete(void* p) noexcept {
+  if (nx::g_edge_arena.Owns(p) || nx::g_node_arena.Owns(p)) return;
+  free(p);
+}
+void operator delete(void* p, size_t) noexcept { operator delete(p); }
+void* operator new[](size_t n) { return operator new(n == sizeof(Edge) || n == sizeof(Node) ? n + 1 : n); }
+void operator delete[](void* p) noexcept { operator delete(p); }
+void operator delete[](void* p, size_t) noexcept { operator delete(p); }
+
 namespace nx {
 
 static void ResetNinjaGlobals() {
